@@ -139,7 +139,8 @@ def run_property(prop, tier, seed, jobs, wd, only=None, keep_logs=None, t0=None)
         if r["status"] in ("timeout", "oom", "error"):
             inconclusive.append((r, r.get("detail", r["status"])))
             continue
-        if not r["covers"].get("reach: end of harness", False):
+        # (a failing assertion ends the path, so the witness is only demanded of passing harnesses)
+        if not r["covers"].get("reach: end of harness", False) and not r["failures"]:
             machinery.append((r, "vacuous: the end of the harness is unreachable"))
         for f in r["failures"]:
             kind, p = classify(prop, f, r["harness"])
